@@ -324,7 +324,8 @@ IsCall(e) == e.op \in {"RaceReport", "Crash", "SourceCheck", "NFKDProbe", "ByEnt
 Step ==
     /\ l <= N
     /\ LET e == TraceLog[l]
-           fails == {p \in Props : ~Holds(p, e)}
+           \* (a process that died inside the library while a property's calls were being made fails that property)
+           fails == {p \in Props : ~Holds(p, e) \/ (e.op = "Crash" /\ p # "DRIFT")}
            kf == {p \in Props : KnownF(p, e)}
        IN /\ ProcStep(e)
           /\ bad' = IF Cardinality(bad) < 20 THEN bad \cup {<<l, p>> : p \in fails} ELSE bad
